@@ -96,7 +96,7 @@ func (c *fctx) forStmt(x *ast.ForStmt, rest []ast.Stmt, k *cont, n int) (string,
 	c.loopNo++
 	idx := c.loopNo
 	lname := fmt.Sprintf("%s.loop%d", c.cfg.lean, idx)
-	if idx-1 >= len(c.cfg.fuel) {
+	if idx-1 >= len(c.cfg.fuel) && !c.cfg.rec {
 		return "", fmt.Errorf("no fuel hint for loop %d of %s", idx, c.cfg.goName)
 	}
 	var bodyNodes []ast.Stmt
@@ -118,7 +118,10 @@ func (c *fctx) forStmt(x *ast.ForStmt, rest []ast.Stmt, k *cont, n int) (string,
 		}
 	}
 	// fuel expression is evaluated at loop entry, over the current Lean names
-	fuelExpr := c.cfg.fuel[idx-1]
+	fuelExpr := "fuel"
+	if !c.cfg.rec {
+		fuelExpr = c.cfg.fuel[idx-1]
+	}
 	for o, nm := range c.names {
 		fuelExpr = strings.ReplaceAll(fuelExpr, "${"+o.Name()+"}", nm)
 	}
@@ -221,9 +224,16 @@ func (c *fctx) forStmt(x *ast.ForStmt, rest []ast.Stmt, k *cont, n int) (string,
 	if hasRet {
 		rv := c.fresh("ret")
 		fmt.Fprintf(&b, "%slet (%s, %s) ← %s\n", ind(n), rv, pat, call)
-		restS, err := c.stmts(rest, k, n+1)
-		if err != nil {
-			return "", err
+		var restS string
+		if x.Cond == nil && !hasBreak(x.Body) {
+			// `for { … }` without break only ends by return: the normal exit does not exist
+			restS = ind(n+1) + "Res.panic \"unreachable: infinite loop exited\"\n"
+		} else {
+			var err error
+			restS, err = c.stmts(rest, k, n+1)
+			if err != nil {
+				return "", err
+			}
 		}
 		var rnames []string
 		rpat := "_"
@@ -398,8 +408,17 @@ func (g *golite) translate(cfg *fnCfg) (string, error) {
 		return "", fmt.Errorf("%s: %v", cfg.goName, err)
 	}
 	var out strings.Builder
+	if cfg.rec {
+		out.WriteString("mutual\n")
+	}
 	for _, a := range c.aux {
 		out.WriteString(a + "\n")
+	}
+	if cfg.rec {
+		body2 := strings.ReplaceAll(namedInit.String()+body, "\n  ", "\n    ")
+		fmt.Fprintf(&out, "def %s %s%s : Nat → Res (%s)\n  | 0 => .outOfFuel\n  | fuel + 1 => do\n    %s", cfg.lean, sigma, strings.Join(binders, " "), rt, strings.TrimPrefix(body2, "  "))
+		out.WriteString("end\n")
+		return out.String(), nil
 	}
 	fmt.Fprintf(&out, "def %s %s%s : Res (%s) := do\n%s%s", cfg.lean, sigma, strings.Join(binders, " "), rt, namedInit.String(), body)
 	return out.String(), nil
